@@ -322,6 +322,28 @@ def dict_method(eng, st, ref, o, name, args, kwargs):
         for s1, has in eng.branch(st, o.d[k.t]):
             outs.append((s1, eng.unpack_val(o.vsort, o.m[k.t]) if has else default))
         return outs
+    if name == "clear" and not args:
+        s1 = st.clone()
+        e0 = DictObj.empty(o.ksort, o.vsort, o.tag)
+        s1.put(ref, e0)
+        return [(s1, NONE)]
+    if name == "update" and len(args) == 1 and isinstance(args[0], Ref) and isinstance(st.get(args[0]), DictObj) and st.get(args[0]).vsort == o.vsort:
+        o2 = st.get(args[0])
+        k = z3.FreshConst(o.ksort, "k")
+        s1 = st.clone()
+        s1.put(ref, o.with_(z3.Lambda([k], z3.If(o2.d[k], o2.m[k], o.m[k])), z3.Lambda([k], z3.Or(o.d[k], o2.d[k]))))
+        return [(s1, NONE)]
+    if name == "pop" and args and isinstance(args[0], Z):
+        k0 = args[0]
+        outs = []
+        has = st.fork(o.d[k0.t], "has")
+        if eng.feasible(has.pc):
+            has.put(ref, o.with_(o.m, z3.Store(o.d, k0.t, z3.BoolVal(False))))
+            outs.append((has, eng.unpack_val(o.vsort, o.m[k0.t])))
+        mis = st.fork(z3.Not(o.d[k0.t]), "missing")
+        if eng.feasible(mis.pc):
+            outs.append((mis, args[1]) if len(args) > 1 else (mis, Raised(Exc("KeyError", origin="dict.pop"))))
+        return outs
     raise Unsupported(f"dict.{name}")
 
 
